@@ -98,3 +98,36 @@ def install_entry_invariant():
         fn = getattr(M.Entry, name)
         setattr(M.Entry, name, icontract.ensure(entry_views_agree, error=err)(fn))
     _INSTALLED.add("entry")
+
+
+# ------------------------------------------------------------------ names (C12, C13)
+ORIG = {}
+
+
+def _split_post(names, result):
+    """conservation + idempotence of split_multiple_persons_names (C12)."""
+    from ..ref import names as R
+    COUNT["split_names_post"] += 1
+    why = None
+    if not isinstance(names, str):
+        COUNT["split_names_post_out_of_quantifier"] += 1
+    elif not isinstance(result, list):
+        why = "result-not-a-list"
+    else:
+        why = R.conservation(names, result)
+        if why is None:
+            again = ORIG["split"](" and ".join(result))
+            if again != result:
+                why = "not-idempotent"
+    LAST["split_names_post"] = why
+    return why is None
+
+
+def install_split_contract():
+    if "split" in _INSTALLED:
+        return
+    from bibtexparser.middlewares import names as N
+    ORIG["split"] = N.split_multiple_persons_names
+    err = lambda names, result: PostBroken(LAST.get("split_names_post"))  # noqa: E731
+    N.split_multiple_persons_names = icontract.ensure(_split_post, error=err)(N.split_multiple_persons_names)
+    _INSTALLED.add("split")
